@@ -14,7 +14,7 @@ CLAIMS = {
         "text": "Decides for the anchored gate consumers (T1 incl. its closure and cache selection, T2 cache selection, apply_quality, budget derivation, the reflection runner/backends/writer, parallel predicates): every value read from perf.*, perf.parallel.*, graph.*, t2.quality.*, t2.hybrid.* or scheduler.* reaches a branch, loop, call argument, return or store only where its gate is known true, "
                 "is conjoined with it, builds a cache key, or lives in a function every caller enters under the gate; the metrics gate conjoins perf.enabled and byte caches are selected only under it; gel.jsonl / scheduler events / the quality shadow trace / t3_reflection.jsonl and the GEL, budget-derivation and scheduler-load call sites of run_turn are gate-dominated, stale slice budgets are cleared; "
                 "the validator writes perf / t2.quality into the normalised tree only when the user supplied them. Every other engine function (467 scanned) that reads a gated subtree uses it gated, reads a key the validator rejects, is entered only under the gate, or is one of 10 confirmed instances with a reason.",
-        "note": "Not decided: equality of utterances, logs, snapshots and state with the run that omits the subtree (execution equality). Parallel switches read without perf.enabled (pinned by the test suite) select an execution strategy: their observable equivalence is C09/C10, reported as information. 3 known findings: reflection budgets under scheduler.budgets act with the scheduler gate off.",
+        "note": "Not decided: equality of utterances, logs, snapshots and state with the run that omits the subtree (execution equality). 5 known findings: reflection budgets under scheduler.budgets act with the scheduler gate off (3); the T1 / T2 parallel gates act with perf.enabled off and the fan-out is not result-identical (2, pinned by the test suite; the agent-level gate was repaired).",
     },
     "C14": {
         "technique": "static analysis: taint of untrusted input values into may-raise sinks with total coercions / isinstance narrowing / try as sanitisers, alias (freshness) classification of every mutated dictionary with helper summaries, handler-shape check of the API variants, set-in-message / set-iteration detection, NaN-closure of float coercion, validator<->engine table agreement (hard subscripts, typed uses of config values); supplier-set resolution of aliased .get chains against all-paths coercion in the validator",
@@ -235,5 +235,52 @@ _ROUND5 = {
             " gel observe and tick are guarded like the maintenance passes, and every continuation of the boot loader call - also the swallowed failure - sets the once-flag."),
 }
 for _p, (_tech, _text) in _ROUND5.items():
+    CLAIMS[_p]["technique"] += _tech
+    CLAIMS[_p]["text"] += _text
+
+# Round-6 additions (rules added after the sixth batch of seeded changes and the triage of 81 side observations).
+_ROUND6 = {
+    "C01": ("; version-follows-content for the wall-clock TTL caches; wall-clock fallback of the clock parsers; object addresses and file mtimes as values on the canonical path",
+            " Every write of the index's episode containers increments the version on every path (a wall-clock TTL expiry then changes hit / miss only); every call of a timestamp parser with a wall-clock fallback passes its default and an unparsable clock text is not reset to None before a datetime.now() fill-in; no id(obj) on the canonical path; choices by file mtime are reported (2 known findings)."),
+    "C02": ("; master-switch conjunction of the three parallel gates",
+            " Every non-False return of the T1 / T2 / agent parallel gates is reached only under perf.enabled (2 known findings: the T1 and T2 gates, pinned by tests)."),
+    "C03": ("; NaN-free intake of the merge step; type-ungated cooldown history",
+            " Every term filed for summation in the merge step is known not to be NaN; an operation is blocked whatever number type its last turn was stored as."),
+    "C04": ("; catch-all enclosure of every store read of the snapshot export",
+            " Every expression of _export_store_for_snapshot that touches the store is under a catch-all."),
+    "C05": ("; unambiguous key parts (no key-only separator join over a collection); resource location as a key part; no object address in keys; index identity not inherited by copies; etag hash order = csr walk order",
+            " No cache key folds a collection through a separator for the key only; a key built from properties of an opened resource also carries its location; keys spanning index objects carry the index's identity attribute and no id(); a copy hook refreshes that identity; the etag hashes edges in the order csr() hands them to T1."),
+    "C06": ("; sibling key-input agreement of the re-keying loops; per-record conversion guards; agent id as one path component; injectivity of edge ids",
+            " The writer's and the loader's re-keying loops decide a record's key from the same inputs; no per-record numeric conversion relies on a try around the whole loop; the agent id is separator-escaped wherever the body name is built; edge ids joining node ids with an unescaped separator are reported (1 known finding)."),
+    "C07": ("; loader included in the usable-baseline typestate; expected-etag argument of every baseline read; lone-header rejection; codec settled before naming",
+            " The boot loader patches only a baseline that passed the baseline reader; every baseline read names the version it expects and the reader compares it; the generic reader rejects a file that holds only a header; zstandard availability is decided before the file name and header are built."),
+    "C08": ("; export writers and the offline compaction script on the atomic path",
+            " The JSON export writers (export_logs_for_frontend, console) and scripts/mem_compact.py write through atomic_write_* and contain no raw content write."),
+    "C09": ("; merge key on the raw score; shard failures reach the helper; hit records carry every EpisodeRef field",
+            " The cross-shard sort key is (-score, id) without coarsening; the per-shard search is not wrapped in a swallowing handler; per-shard hit records and EpRefShim carry every field of EpisodeRef."),
+    "C10": ("; second capture attempt before write-through; commit under the agent's context; staging in commit order; drain / disable in finally; stage metrics used as reported; first queued task of a picked agent",
+            " A record copy.deepcopy cannot take is copied at the JSON level before any write-through; each buffer is committed under a context cloned for its agent; buffers are staged sorted; the final drain and disable_staging sit in a finally around the commit loop; a stage metric the real stage reports as a count is not iterated un-narrowed; a picked agent's first queued task is the one computed."),
+    "C11": ("; exact form of the recency bound at every window comparison; distinct ids before the k cut; owner-scoped rescoring map; guarded episode-field conversions; threshold on the reader path",
+            " The recency bound is clock - timedelta(days=recent_days), not cut to a day, compared as time >= bound (3 sites); the index cuts to k after folding rows that share an id; the id -> episode map of the rescoring holds only episodes of the queried owner; numeric episode fields are converted under a guard; appends to the result on the embed-store reader path are dominated by the threshold test."),
+    "C12": ("; key tells seed sets apart; optional sized containers tested for None; a string tag is one tag",
+            " The T1 key keeps the seed ids' element boundaries; no optional container whose class defines __len__ is tested by truthiness (the perf caps engage); attrs['tags'] given as a str is wrapped, not iterated."),
+    "C13": ("; value-partial text operations under a catch-all (followed into helpers); bundle supplies every configuration key the planner reads",
+            " Strict encode / int / float / index / %-format of the untrusted text are under a catch-all; every bundle['cfg'][section][key] the planner reads is copied by cfg_snapshot."),
+    "C14": ("; verdict tests read normalised values; non-mapping sections rejected; range obligations of engine arithmetic; range test where a user's quality value is copied; messages taken from the error un-rewritten; JSON report fallback encoder; defaults merged by copy; per-instance error messages",
+            " An ordering test deciding an error verdict reads section[key] after the key's normalising store; a section normalised only when supplied rejects non-mappings; t1.decay.alpha and graph.update.alpha are bounded as the engine's arithmetic needs and the recency window handles OverflowError; ranged quality values are range-tested where they are copied; API variants report the error's own messages; the CLI's JSON report has a fallback encoder; _deep_merge inserts copies; no error class keeps messages in a class-level container."),
+    "C15": ("; capacity domain (>= 0 by construction or non-empty implied); lookups do not allocate; no write-back of a local byte total after a callback",
+            " Every capacity guarding an eviction loop is clamped to >= 0 (or the loop implies a non-empty container); CacheManager.get adds nothing to the namespace table; LRUBytes keeps its byte total on the instance while on_evict runs."),
+    "C16": ("; total line encoding; flush past the active mux",
+            " The appender and the rewrite encode json.dumps(ensure_ascii=False) text with an error handler; logmux.flush hands its pairs to the unbuffered writer."),
+    "C17": ("; stage work charged whenever the metric is reported",
+            " The guards of consumed[<budget>] = <metric> test only what the metric is made of."),
+    "C18": ("; commutative folding of duplicate ids; distinct ids in the pair loops; record updated all at once; NaN-safe clamp; clustering blind to promotion edges; key injectivity",
+            " Loops over the items as listed file nothing by first-wins / last-wins; paired items carry each id once; no fallible conversion follows the weight write of an update; _clamp does not return NaN; _build_adj skips the relation apply_promotion writes; an unescaped separator in _edge_key is reported (1 known finding)."),
+    "C19": ("; every planner branch rewrites the reflection request; per-turn ctx values refreshed for any numeric clock",
+            " Each return of run_policy is preceded by a write of the flag the gate falls back on; the now_iso refresh is not gated on one exact clock type."),
+    "C20": ("; a rerank layer's fault undoes the whole layer",
+            " In apply_quality nothing that can raise follows a reassignment of the ranking inside a try whose handler resets that layer's used-flag."),
+}
+for _p, (_tech, _text) in _ROUND6.items():
     CLAIMS[_p]["technique"] += _tech
     CLAIMS[_p]["text"] += _text
